@@ -131,6 +131,25 @@ package plush
 //@ assigns contents(data), fresh
 //@ loop 1: invariant keep: forall k string :: old(has(data, k)) && old(data[k]) != nil ==> has(data, k) && data[k] == old(data[k])
 
+//@ func NewContext
+//@ ensures shape: fresh(result) && result.outer == nil && fresh(result.data)
+//@ assigns fresh
+
+// the wrapped context.Context is the one handed in; everything else is as NewContext leaves it
+//@ func NewContextWithContext
+//@ requires ctx != nil
+//@ ensures shape: fresh(result) && result.outer == nil && fresh(result.data) && result.Context == ctx
+//@ assigns fresh
+
+// export (unexported, reached only from itself): a fresh map, built from snapshots taken under each
+// context's own lock (C14), never from c.data directly; safety and lock discipline only
+//@ func (c *Context) export
+//@ ensures fresh: result != nil && fresh(result)
+//@ assigns fresh
+//@ decreases c
+//@ loop 1: invariant m != nil && fresh(m)
+//@ loop 2: invariant m != nil && fresh(m)
+
 //@ func (c *Context) New
 //@ ensures shape: is(result, "*Context") && fresh(unbox(result, "*Context")) && unbox(result, "*Context").outer == c
 //@ ensures ownmap: fresh(unbox(result, "*Context").data)
@@ -344,6 +363,8 @@ package plush
 //@ assigns c.ctx, c.curStmt, c.fnDepth, mapsof("map[string]interface{}"), fresh
 
 //@ func (c *compiler) evalUpdateIndex
+// an unhashable key (a slice, map or func behind an interface-typed key) is an error, never a runtime panic
+//@ ensures mapkey: kindof(dyn(left)) == 21 && (index == nil || !rvComparable(rvOf(index))) ==> result != nil
 //@ errprop
 //@ assigns mapsof("map[string]interface{}")
 
@@ -354,9 +375,9 @@ package plush
 //@ ensures elem: node.Callee == nil && seqkind(left) && is(index, "int") && 0 <= unbox(index, "int") && unbox(index, "int") < rvLen(rvOf(left)) ==> err == nil && result == rvIface(rvIndex(rvOf(left), unbox(index, "int")))
 //@ ensures range: seqkind(left) && is(index, "int") && !(0 <= unbox(index, "int") && unbox(index, "int") < rvLen(rvOf(left))) ==> err != nil
 //@ ensures intidx: seqkind(left) && !is(index, "int") ==> err != nil
-//@ ensures mapkey: kindof(dyn(left)) == 21 && (index == nil || !assignable(dyn(index), tkey(dyn(left)))) ==> err != nil
-//@ ensures mapmiss: kindof(dyn(left)) == 21 && index != nil && assignable(dyn(index), tkey(dyn(left))) && !rvValid(rvMapIndex(rvOf(left), rvOf(index))) ==> err == nil && result == nil
-//@ ensures maphit: node.Callee == nil && kindof(dyn(left)) == 21 && index != nil && assignable(dyn(index), tkey(dyn(left))) && rvValid(rvMapIndex(rvOf(left), rvOf(index))) ==> err == nil && result == rvIface(rvMapIndex(rvOf(left), rvOf(index)))
+//@ ensures mapkey: kindof(dyn(left)) == 21 && (index == nil || !assignable(dyn(index), tkey(dyn(left))) || !rvComparable(rvOf(index))) ==> err != nil
+//@ ensures mapmiss: kindof(dyn(left)) == 21 && index != nil && assignable(dyn(index), tkey(dyn(left))) && rvComparable(rvOf(index)) && !rvValid(rvMapIndex(rvOf(left), rvOf(index))) ==> err == nil && result == nil
+//@ ensures maphit: node.Callee == nil && kindof(dyn(left)) == 21 && index != nil && assignable(dyn(index), tkey(dyn(left))) && rvComparable(rvOf(index)) && rvValid(rvMapIndex(rvOf(left), rvOf(index))) ==> err == nil && result == rvIface(rvMapIndex(rvOf(left), rvOf(index)))
 //@ ensures other: !seqkind(left) && kindof(dyn(left)) != 21 ==> err != nil
 //@ ensures ufn: is(result, "*userFunction") ==> pay(result) != 0
 //@ requires node != nil
@@ -671,11 +692,21 @@ package plush
 
 // User-supplied code reached through interfaces (assumption U1: returns normally, does not touch
 // evaluator state except through the HelperContext API).
+// The one way such a call panics before any user code runs: the receiver is a nil pointer and the method
+// is declared on the pointed-to type (Go's wrapper dereferences it). That is the engine's fault (C04:
+// "typed nil pointers"), so it is a precondition of the call.
+//@ pred nilvalrecv(i any, m string) = kindof(dyn(i)) == 22 && pay(i) == 0 && thasmethod(telem(dyn(i)), m)
+//@ func nilValueReceiver
+//@ ensures def: result == nilvalrecv(i, m)
+//@ assigns nothing
 //@ iface fmt.Stringer.String(x) r
+//@ requires recv: !nilvalrecv(x, "String")
 //@ assigns nothing
 //@ iface plush.HTMLer.HTML(x) r
+//@ requires recv: !nilvalrecv(x, "HTML")
 //@ assigns nothing
 //@ iface plush.interfaceable.Interface(x) r
+//@ requires recv: !nilvalrecv(x, "Interface")
 //@ assigns nothing
 
 // ---- package state: the template cache (C13/C14) ------------------------------------------------
@@ -706,6 +737,40 @@ package plush
 //@ ensures init: pkginit()
 //@ ensures rendered: err == nil ==> trusted(result)
 //@ ensures empty: err != nil ==> result == ""
+//@ errprop
+//@ assigns contents(cache), anyobj(Template.program), mapsof("map[string]interface{}"), fresh
+
+// The remaining package-level entry points (C05 "a failing operation fails Render, with empty output",
+// C03 "any text yields a program or an error", C13/C14 cache discipline): each is a thin wrapper whose
+// result is the wrapped call's result.
+//@ func BuffaloRenderer
+//@ requires pkginit() && data != nil
+//@ ensures init: pkginit()
+//@ ensures rendered: err == nil ==> trusted(result)
+//@ ensures empty: err != nil ==> result == ""
+// every helper handed in is visible to the template under its own name
+//@ assert merged: forall k string :: has(helpers, k) ==> has(data, k) && data[k] == helpers[k] before NewContextWith#1
+//@ errprop
+//@ assigns contents(cache), contents(data), anyobj(Template.program), mapsof("map[string]interface{}"), fresh
+//@ loop 1: invariant merged: data != nil && pkginit() && (forall k string :: seen1[k] ==> has(data, k) && data[k] == helpers[k])
+
+//@ func RenderR
+//@ requires pkginit()
+//@ requires cctx: is(ctx, "*Context") && pay(ctx) != 0
+//@ ensures init: pkginit()
+//@ ensures rendered: err == nil ==> trusted(result)
+//@ ensures empty: err != nil ==> result == ""
+//@ errprop
+//@ assigns contents(cache), anyobj(Template.program), mapsof("map[string]interface{}"), fresh
+
+// RunScript runs the script in a child scope of the context handed in: "print"/"println" are bound there
+// and never in the caller's context (C09/C10: a Set on one context never changes what its ancestors see)
+//@ func RunScript
+//@ requires pkginit()
+//@ requires cctx: is(ctx, "*Context") && pay(ctx) != 0
+//@ ensures init: pkginit()
+//@ assert childscope: callarg0 != ctx && is(callarg0, "*Context") && fresh(unbox(callarg0, "*Context")) before Set#*
+//@ assert wrapped: callarg0 == "<% " + input + "%>" && callarg1 != ctx before Render#1
 //@ errprop
 //@ assigns contents(cache), anyobj(Template.program), mapsof("map[string]interface{}"), fresh
 
